@@ -35,6 +35,7 @@ def flat_prog(
     index_rate: float = 0.0,
     none_rate: float = 0.0,
     bad_index_rate: float = 0.0,
+    split_rate: float = 0.0,
 ) -> Dict[str, Any]:
     """A call-only program: every statement is one call of a constructor function, depending on earlier
     sites through positional args / kwargs / activation flags.  Acyclic by construction."""
@@ -78,6 +79,13 @@ def flat_prog(
                     spec["kind"], spec["n"] = "tup", 2
                 else:
                     spec["kind"] = "dict"  # {"a": term, "b": [term, (term, term)]}
+            elif split_rate and "flag" in dep_kinds and i not in setup_idx and i not in debug_idx and fn == names[i] \
+                    and draw(st.floats(0, 1)) < split_rate:
+                # a producer of a pair whose two elements are truthy / falsy independently: later sites are flagged
+                # by ONE element each (twz_active=pair[0] / pair[1])
+                pool_ = [0, 1, "", "x", None, True, False]
+                spec["kind"], spec["pair"] = "const", True
+                spec["val"] = {"T": [draw(st.sampled_from(pool_)), draw(st.sampled_from(pool_))]}
             elif none_rate and i not in setup_idx and draw(st.floats(0, 1)) < none_rate:
                 # a side-effect-only function: its result is None (or another falsy constant)
                 spec["kind"], spec["val"] = "const", draw(st.sampled_from([None, None, 0, ""]))
@@ -117,9 +125,17 @@ def flat_prog(
                     active = e
                 else:
                     args.append(e)
+        pairs = [j for j in pool if fns[body[j]["fn"]].get("pair")] if split_rate else []
+        if pairs and "flag" in dep_kinds and active is None and i not in setup_idx and i not in debug_idx and draw(st.booleans()):
+            active = ["i", ["v", f"v{draw(st.sampled_from(pairs))}"], draw(st.integers(0, 1))]
         if "flag" in dep_kinds and active is None and i not in setup_idx and i not in debug_idx \
                 and draw(st.sampled_from([True] + [False] * 5)):
             active = ["c", draw(st.sampled_from([False, False, True, 0, 1, None]))]  # a constant activation flag
+        if fns[fn].get("pair") and active is not None:
+            # the pair is indexed by its users: it must not be deactivated (None[0] raises in plain Python as well)
+            if active[0] != "c":
+                args.append(active)
+            active = None
         if n_params and i not in setup_idx and draw(st.integers(0, 2)) == 0:
             args.append(["p", f"p{draw(st.integers(0, n_params - 1))}"])
         if dup_rate and i > 0 and i not in setup_idx and i not in debug_idx and draw(st.floats(0, 1)) < dup_rate:
